@@ -10,6 +10,7 @@ import Verif.Inv.Kernel
 import Verif.Model.Loop
 import Verif.Inv.Life
 import Verif.Inv.LifeInv
+import Verif.Inv.OwnInv
 
 namespace Verif.Props.C14
 open Verif.Loop Verif.Token Verif.Kernel
@@ -66,25 +67,25 @@ theorem hooks_once_per_listed_source (ops : List Op) (t : Tok) (ht : t ∈ (run 
 
 open Verif.Loop in
 /-- **After every history** — callbacks removing, disabling, re-inserting (also into the slot just vacated), failing
-    registrations, errors — not aborted by a panic, no generation wrapped, no object inserted twice: every token in the
+    registrations, errors — not aborted by a panic, no generation wrapped: every token in the
     additional-lifecycle set resolves to an occupied slot whose source has lifecycle hooks … -/
 theorem lifecycle_tokens_resolve (ops : List Op) (hab : (run ops).aborted = false)
-    (hna : (run ops).aliased = false) (hnd : (run ops).dupInsert = false) :
+    (hna : (run ops).aliased = false) :
     ∀ t ∈ (run ops).life, ∃ k, slotDisp (run ops) t = some k ∧ lifeFlag (run ops) k = true :=
-  Verif.Inv.LifeInv.lifecycle_tokens_resolve ops hab hna hnd
+  Verif.Inv.LifeInv.lifecycle_tokens_resolve ops hab hna (Verif.Inv.OwnInv.never_inserted_twice ops hab)
 
 open Verif.Loop in
 /-- … so the `before_sleep` walk that opens the next dispatch cannot reach `unreachable!()` … -/
 theorem next_dispatch_before_sleep_does_not_panic (ops : List Op) (hab : (run ops).aborted = false)
-    (hna : (run ops).aliased = false) (hnd : (run ops).dupInsert = false) :
+    (hna : (run ops).aliased = false) :
     ¬ Verif.Inv.LifeInv.isUnreachable (forEachM (run ops).life beforeSleep (run ops)) :=
-  Verif.Inv.LifeInv.next_before_sleep_walk_fine ops hab hna hnd
+  Verif.Inv.LifeInv.next_before_sleep_walk_fine ops hab hna (Verif.Inv.OwnInv.never_inserted_twice ops hab)
 
 open Verif.Loop in
 /-- … nor can the `before_handle_events` walk, whatever the poll returned -/
 theorem next_dispatch_before_handle_does_not_panic (ops : List Op) (evs : List Verif.Kernel.Event)
-    (hab : (run ops).aborted = false) (hna : (run ops).aliased = false) (hnd : (run ops).dupInsert = false) :
+    (hab : (run ops).aborted = false) (hna : (run ops).aliased = false) :
     ¬ Verif.Inv.LifeInv.isUnreachable (forEachM (run ops).life (beforeHandle evs) (run ops)) :=
-  Verif.Inv.LifeInv.next_before_handle_walk_fine ops evs hab hna hnd
+  Verif.Inv.LifeInv.next_before_handle_walk_fine ops evs hab hna (Verif.Inv.OwnInv.never_inserted_twice ops hab)
 
 end Verif.Props.C14
